@@ -87,9 +87,15 @@ fn pe_relabel(e: PE) -> Result<PE, PE> {
     Err(e)
 }
 
+/// structural description from Display (Debug is not usable: some expressions print a HashMap
+/// in iteration order)
+fn pe_desc(e: &PE) -> String {
+    format!("{}[{}]", e, e.children().into_iter().map(pe_desc).collect::<Vec<_>>().join(", "))
+}
+
 impl Subject for PE {
     fn key(&self) -> u64 {
-        super::dbg_key(self)
+        fp_str(&pe_desc(self))
     }
     fn show(&self) -> String {
         format!("{self}")
@@ -98,8 +104,7 @@ impl Subject for PE {
         Arc::clone(self)
     }
     fn same(&self, o: &Self) -> bool {
-        // structural: Debug prints every field of every node
-        format!("{self:?}") == format!("{o:?}")
+        self == o && pe_desc(self) == pe_desc(o)
     }
     fn kids(&self) -> Vec<Self> {
         self.children().into_iter().cloned().collect()
@@ -379,7 +384,7 @@ fn ectx_desc(c: &ExprContext<u32>) -> String {
 
 impl Subject for ExprContext<u32> {
     fn key(&self) -> u64 {
-        fp_mix(super::dbg_key(&self.expr), fp_str(&ectx_desc(self)))
+        fp_mix(fp_str(&pe_desc(&self.expr)), fp_str(&ectx_desc(self)))
     }
     fn show(&self) -> String {
         ectx_desc(self)
@@ -388,7 +393,10 @@ impl Subject for ExprContext<u32> {
         ExprContext::new(Arc::clone(&self.expr), self.data, self.children.iter().map(|c| c.dup()).collect())
     }
     fn same(&self, o: &Self) -> bool {
-        format!("{self:?}") == format!("{o:?}")
+        fn eq(a: &ExprContext<u32>, b: &ExprContext<u32>) -> bool {
+            a.data == b.data && a.expr.eq(&b.expr) && pe_desc(&a.expr) == pe_desc(&b.expr) && a.children.len() == b.children.len() && a.children.iter().zip(b.children.iter()).all(|(x, y)| eq(x, y))
+        }
+        eq(self, o)
     }
     fn kids(&self) -> Vec<Self> {
         self.children.iter().map(|c| c.dup()).collect()
